@@ -53,7 +53,7 @@ void World::mismatch(const std::string &oracle, const std::string &msg) {
     discard("stage-setting step deviates from the model (" + oracle + "): " + msg);
 }
 bool World::tolerate_failure(bool is_failure_value) {
-    if (!cfg.fault_mode || cur_step != armed_step) return false;
+    if (!(cfg.fault_mode || cfg.hist_faults) || cur_step != armed_step) return false;
     if (!asim::fail_fired_in_step()) return false;
     if (!is_failure_value) return false;
     failed_cleanly = true;
@@ -122,6 +122,7 @@ void World::check_all(const char *when) {
     std::string v = cfg.shared_world ? std::string() : asim::take_violation();
     if (!v.empty()) {
         if (cfg.judge_memory || cfg.judge_hooks) violation(cfg.judge_hooks ? "hooks-ledger" : "ledger", v + " [" + when + "]");
+        if (ledger_judged_from_target && cur_step >= crash_judged_from) violation("ledger-after-failure", v + " [" + when + "]");
         discard("ledger violation outside this property's oracles: " + v);
     }
     if (!pool().intact()) {
@@ -132,6 +133,28 @@ void World::check_all(const char *when) {
         if (!slots[i]) continue;
         std::string why;
         if (!walk_check(slots[i]->c, slots[i], true, why)) {
+            if (!cfg.judge_values && (cfg.judge_memory || cfg.judge_hooks) && !cfg.log_mismatch) {
+                // values are adopted for this property: re-read the model of this slot from the library's structure so that
+                // the memory oracles keep running (references cannot be re-read: their targets are model knowledge)
+                bool has_ref = false;
+                { std::vector<MVal *> all; mv_collect(slots[i], all); for (MVal *m : all) if (m->refkind != R_NONE) has_ref = true; }
+                size_t budget = 2000000;
+                std::string rw;
+                MVal *nm = (has_ref || slots[i]->frozen) ? nullptr : read_struct(slots[i]->c, budget, 0, rw, true);
+                if (nm) {
+                    bool ref_in_struct = false;
+                    { std::vector<MVal *> all; mv_collect(nm, all); for (MVal *m : all) if (m->c && (m->c->type & cJSON_IsReference)) ref_in_struct = true; }
+                    if (!ref_in_struct) {
+                        mv_free(slots[i]);
+                        slots[i] = nm;
+                        stats.probes["model_readopted_after_deviation"]++;
+                        log.add("readopt slot " + std::to_string(i));
+                        continue;
+                    }
+                    mv_free(nm);
+                }
+                discard(std::string("stage-setting deviation that cannot be adopted: ") + why);
+            }
             if (!touched[i]) {
                 if (cfg.judge_independence && !cfg.log_mismatch) violation("independence", std::string("a tree not involved in ") + when + " changed (slot " + std::to_string(i) + "): " + why);
                 if (!cfg.log_mismatch) discard(std::string("a tree not involved in ") + when + " deviates from the model: " + why);
@@ -150,12 +173,30 @@ void World::exec(const Step &st, int index) {
     if (live_judged) *live_judged = (cur_judged || index >= crash_judged_from) ? 1 : 0;
     asim::set_step_index(index);
     asim::begin_step();
-    if (cfg.fault_mode && index == armed_step && arm_fail_k > 0) asim::arm_fail(arm_fail_k);
+    if (st.op == "arm") {  // fault attached to the next step: its k-th allocation request is refused
+        pending_arm = 1 + (long)((uint64_t)st.A(0) % 12);
+        log.add("arm request " + std::to_string(pending_arm) + " of the next call");
+        stats.steps++;
+        return;
+    }
+    if (pending_arm) {
+        static const char *faultable[] = {"parse", "print", "new_null", "new_true", "new_false", "new_bool", "new_number", "new_string", "new_raw", "new_array", "new_object", "new_strref", "new_arrref", "new_objref",
+                                          "bulk_int", "bulk_float", "bulk_double", "bulk_string", "addh", "add_obj", "add_obj_cs", "add_obj_alias", "add_ref_arr", "add_ref_obj", "dup", "replace_key", "replace_key_alias", "set_valuestring"};
+        bool ok = false;
+        for (const char *f : faultable) if (st.op == f) ok = true;
+        if (cfg.hist_faults && ok) { armed_step = index; arm_fail_k = pending_arm; }
+        pending_arm = 0;
+    }
+    if ((cfg.fault_mode || cfg.hist_faults) && index == armed_step && arm_fail_k > 0) asim::arm_fail(arm_fail_k);
     stats.steps++;
     if (cur_judged) stats.judged_steps++; else stats.adopted_steps++;
     stats.op_counts[st.op]++;
     dispatch(st);
     asim::arm_fail(0);
+    if (cfg.hist_faults && index == armed_step) {
+        if (asim::fail_fired_in_step()) { stats.fault_counts["alloc_fail_in_history"]++; stats.fault_counts[cfg.hookcfg == HK_BOTH || cfg.hookcfg == HK_MALLOC_ONLY ? "alloc_fail_custom_malloc" : "alloc_fail_default_allocator"]++; }
+        arm_fail_k = 0; armed_step = -1;
+    }
     check_all(st.op.c_str());
 }
 void World::dispatch(const Step &st) {
